@@ -25,10 +25,10 @@ type BoundedSpec struct {
 
 type PropConfig struct {
 	Bounded     []BoundedSpec `json:"bounded"`
-	Packages    []string `json:"packages"`
-	TrustedBase []string `json:"trusted_base"`
-	Assumptions []string `json:"assumptions"`
-	Note        string   `json:"note"`
+	Packages    []string      `json:"packages"`
+	TrustedBase []string      `json:"trusted_base"`
+	Assumptions []string      `json:"assumptions"`
+	Note        string        `json:"note"`
 }
 
 func envOr(k, d string) string {
